@@ -1,7 +1,9 @@
 (* driver for the extracted Crt model.
    one case per line:  <permits-hex> <op> <op> ...
-     S:<u|p|s|x>:<nsubs>:<raises 0|1>:<fails 0|1>     submit
+     S:<u|p|s|x>:<nsubs>:<raises 0|1>:<0|q|a|m>       submit; fails nowhere | in on_queued | building the arguments | in make_request
      C:<idx>:<k|f|e|c>                                CRT finishes request idx (ok | ok, rename fails | error | cancelled)
+     R:<idx>:<k|f|e|c>                                CRT resolves finished_future of request idx only
+     D:<idx>                                          CRT delivers on_done of a resolved request
      X:<0|1>                                          shutdown(cancel)
    "permits" alone prints CRT_PERMITS.
    answer: one segment per op, joined by " | ":
@@ -14,16 +16,21 @@ let kind_str = function Upload -> "u" | DownloadPath -> "p" | DownloadStream -> 
 let outcome_of = function
   | "k" -> Ok | "f" -> OkRenameFail | "e" -> Err | "c" -> Cancelled
   | s -> failwith ("bad outcome " ^ s)
+let fail_of = function
+  | "0" -> NoFail | "q" -> FailQueued | "a" -> FailArgs | "m" -> FailMakeRequest
+  | s -> failwith ("bad failpoint " ^ s)
 let bool_of = function "0" -> false | "1" -> true | s -> failwith ("bad bool " ^ s)
 let op_of (w : string) : op =
   match String.split_on_char ':' w with
-  | ["S"; k; n; r; f] -> OSubmit (kind_of k, nat_of_int (int_of_string n), bool_of r, bool_of f)
+  | ["S"; k; n; r; f] -> OSubmit (kind_of k, nat_of_int (int_of_string n), bool_of r, fail_of f)
   | ["C"; i; o] -> OComplete (nat_of_int (int_of_string i), outcome_of o)
+  | ["R"; i; o] -> OResolve (nat_of_int (int_of_string i), outcome_of o)
+  | ["D"; i] -> ODeliver (nat_of_int (int_of_string i))
   | ["X"; c] -> OShutdown (bool_of c)
   | _ -> failwith ("bad op " ^ w)
 let res_str = function
   | RSubmitted -> "submitted" | RWouldBlock -> "block" | RRaised -> "raised"
-  | RCompleted -> "completed" | RCallbackRaised -> "cbraised" | RInvalid -> "invalid"
+  | RResolved -> "resolved" | RCompleted -> "completed" | RCallbackRaised -> "cbraised" | RInvalid -> "invalid"
   | RReturned -> "returned" | RHang -> "hang"
 let ev_str (i, e) =
   let i = string_of_int (int_of_nat i) in
